@@ -1,9 +1,433 @@
 /-
-  QEModel.C17 — executable model for property C17 (stub; to be filled in).
+  QEModel.C17 — root finders and maximisers (scalar loops, scalar-generic).
+  Mirrors: quantecon/optimize/root_finding.py (newton 24-107, newton_halley 110-193,
+  newton_secant 196-274, _bisect_interval 277-293, bisect 296-374, brentq 377-497),
+  quantecon/optimize/scalar_maximization.py (brent_max 4-149),
+  quantecon/optimize/nelder_mead.py (_nelder_mead_algorithm 125-296, _initialize_simplex
+  299-337, _check_bounds/_neg_bounded_fun 384-445).
+  The objective function (and its derivatives) is a parameter of every routine; the driver
+  instantiates it with a small postfix program evaluated in the same operation order as the
+  jitted interpreter used by the harness.
+  Parameters (not modelled): `np.sqrt(2.2e-16)`, `0.5*(3-np.sqrt(5))` (brent_max), the
+  constants `1+1e-4`, `1e-4` (secant), `1.05`, `0.00025` (initial simplex).
 -/
 import QEModel.Base
 namespace QE.C17
 
-def handle (_toks : List String) : String := "bad-op"
+/-! ### outcomes -/
+
+/-- `results(root, function_calls, iterations, converged)` -/
+structure Res (α : Type) where
+  root : α
+  calls : Nat
+  iters : Nat
+  conv : Bool
+deriving Repr
+
+inductive Out (α : Type) where
+  | ok (r : Res α)
+  | valueError
+  | runtimeError
+deriving Repr
+
+section generic
+variable {α : Type} [Zero α] [One α] [Add α] [Sub α] [Mul α] [Div α] [Neg α]
+  [LT α] [LE α] [DecidableLT α] [DecidableLE α] [BEq α]
+
+/-- `abs` -/
+def absv (x : α) : α := if x < 0 then -x else x
+/-- the literal `2` / `2.0` -/
+def two : α := 1 + 1
+/-- the literal `3` -/
+def three : α := 1 + 1 + 1
+/-- the literal `0.5` (exact in binary floating point) -/
+def half : α := 1 / (1 + 1)
+/-- Python `min(a, b)` -/
+def pmin (a b : α) : α := if b < a then b else a
+/-- `np.maximum(a, b)` -/
+def npmax (a b : α) : α := if a < b then b else a
+/-- `np.sign` -/
+def sgn (x : α) : α := if x < 0 then -1 else if 0 < x then 1 else 0
+
+/-- `if disp and status == _ECONVERR: raise RuntimeError` -/
+def finish (disp : Bool) (r : Res α) : Out α :=
+  if disp && !r.conv then .runtimeError else .ok r
+
+/-! ### newton (root_finding.py 68-107) -/
+
+/-- the `for itr in range(maxiter)` loop; `itr` iterations completed, current point `p0`. -/
+def newtonLoop (f fp : α → α) (tol : α) : Nat → Nat → α → Nat → Res α
+  | 0, itr, p0, calls => ⟨p0, calls, itr, false⟩
+  | fuel + 1, itr, p0, calls =>
+    let fval := f p0
+    if fval == 0 then ⟨p0, calls + 1, itr, true⟩
+    else
+      let fder := fp p0
+      if fder == 0 then ⟨p0, calls + 2, itr + 1, false⟩
+      else
+        let p := p0 - fval / fder
+        if absv (p - p0) < tol then ⟨p, calls + 2, itr + 1, true⟩
+        else newtonLoop f fp tol fuel (itr + 1) p (calls + 2)
+
+def newton (f fp : α → α) (x0 tol : α) (maxiter : Int) (disp : Bool) : Out α :=
+  if tol ≤ 0 then .valueError
+  else if maxiter < 1 then .valueError
+  else finish disp (newtonLoop f fp tol maxiter.toNat 0 x0 0)
+
+/-! ### newton_halley (root_finding.py 153-193) -/
+
+def halleyLoop (f fp fpp : α → α) (tol : α) : Nat → Nat → α → Nat → Res α
+  | 0, itr, p0, calls => ⟨p0, calls, itr, false⟩
+  | fuel + 1, itr, p0, calls =>
+    let fval := f p0
+    if fval == 0 then ⟨p0, calls + 1, itr, true⟩
+    else
+      let fder := fp p0
+      if fder == 0 then ⟨p0, calls + 2, itr + 1, false⟩
+      else
+        let step := fval / fder
+        let fder2 := fpp p0
+        let p := p0 - step / (1 - half * step * fder2 / fder)
+        if absv (p - p0) < tol then ⟨p, calls + 2, itr + 1, true⟩
+        else halleyLoop f fp fpp tol fuel (itr + 1) p (calls + 2)
+
+def halley (f fp fpp : α → α) (x0 tol : α) (maxiter : Int) (disp : Bool) : Out α :=
+  if tol ≤ 0 then .valueError
+  else if maxiter < 1 then .valueError
+  else finish disp (halleyLoop f fp fpp tol maxiter.toNat 0 x0 0)
+
+/-! ### newton_secant (root_finding.py 235-274) -/
+
+def secantLoop (f : α → α) (tol : α) : Nat → Nat → α → α → α → α → Nat → Res α
+  | 0, itr, _, p1, _, _, calls => ⟨p1, calls, itr, false⟩
+  | fuel + 1, itr, p0, p1, q0, q1, calls =>
+    if q1 == q0 then ⟨(p1 + p0) / two, calls, itr + 1, true⟩
+    else
+      let p := p1 - q1 * (p1 - p0) / (q1 - q0)
+      if absv (p - p1) < tol then ⟨p, calls, itr + 1, true⟩
+      else secantLoop f tol fuel (itr + 1) p1 p q1 (f p) (calls + 1)
+
+/-- `k1 = 1 + 1e-4`, `k2 = 1e-4` -/
+def secantP1 (k1 k2 x0 : α) : α := if 0 ≤ x0 then x0 * k1 + k2 else x0 * k1 - k2
+
+def secant (f : α → α) (k1 k2 x0 tol : α) (maxiter : Int) (disp : Bool) : Out α :=
+  if tol ≤ 0 then .valueError
+  else if maxiter < 1 then .valueError
+  else
+    let p1 := secantP1 k1 k2 x0
+    finish disp (secantLoop f tol maxiter.toNat 0 x0 p1 (f x0) (f p1) 2)
+
+/-! ### bisect (root_finding.py 277-374) -/
+
+/-- `_bisect_interval` after the same-sign test: `(root, converged)` -/
+def bisectInterval (a b fa fb : α) : α × Bool :=
+  let r0 : α × Bool := (0, false)
+  let r1 := if fa == 0 then (a, true) else r0
+  if fb == 0 then (b, true) else r1
+
+/-- the bisection loop; `fa` is the value at the *original* left end (never updated). -/
+def bisectLoop (f : α → α) (xtol rtol fa : α) : Nat → Nat → α → α → Nat → Res α
+  | 0, itr, _, _, calls => ⟨0, calls, itr - 1, false⟩
+  | fuel + 1, itr, xa, dm, calls =>
+    let dm' := dm * half
+    let xm := xa + dm'
+    let fm := f xm
+    let xa' := if 0 ≤ fm * fa then xm else xa
+    if fm == 0 || absv dm' < xtol + rtol * absv xm then ⟨xm, calls + 1, itr + 1, true⟩
+    else bisectLoop f xtol rtol fa fuel (itr + 1) xa' dm' (calls + 1)
+
+def bisect (f : α → α) (a b xtol rtol : α) (maxiter : Int) (disp : Bool) : Out α :=
+  if xtol ≤ 0 then .valueError
+  else if maxiter < 1 then .valueError
+  else
+    let fa := f a
+    let fb := f b
+    if 0 < fa * fb then .valueError
+    else
+      let rs := bisectInterval a b fa fb
+      if rs.2 then finish disp ⟨rs.1, 2, 0, true⟩
+      else finish disp (bisectLoop f xtol rtol fa maxiter.toNat 0 a (b - a) 2)
+
+/-! ### brentq (root_finding.py 416-497) -/
+
+structure BQ (α : Type) where
+  xpre : α
+  xcur : α
+  xblk : α
+  fpre : α
+  fcur : α
+  fblk : α
+  spre : α
+  scur : α
+deriving Repr
+
+/-- `if fpre*fcur < 0: xblk = xpre; fblk = fpre; spre = scur = xcur - xpre` -/
+def bqBlk (s : BQ α) : BQ α :=
+  if s.fpre * s.fcur < 0 then
+    { s with xblk := s.xpre, fblk := s.fpre, spre := s.xcur - s.xpre, scur := s.xcur - s.xpre }
+  else s
+
+/-- `if abs(fblk) < abs(fcur): rotate` -/
+def bqSwap (s : BQ α) : BQ α :=
+  if absv s.fblk < absv s.fcur then
+    { s with xpre := s.xcur, xcur := s.xblk, xblk := s.xcur,
+             fpre := s.fcur, fcur := s.fblk, fblk := s.fcur }
+  else s
+
+/-- step selection: returns the new `(spre, scur)` -/
+def bqTry (s : BQ α) (delta sbis : α) : α × α :=
+  if delta < absv s.spre ∧ absv s.fcur < absv s.fpre then
+    let dpre := (s.fpre - s.fcur) / (s.xpre - s.xcur)
+    let dblk := (s.fblk - s.fcur) / (s.xblk - s.xcur)
+    let stry :=
+      if s.xpre == s.xblk then -s.fcur * (s.xcur - s.xpre) / (s.fcur - s.fpre)
+      else -s.fcur * (s.fblk * dblk - s.fpre * dpre) / (dblk * dpre * (s.fblk - s.fpre))
+    if two * absv stry < pmin (absv s.spre) (three * absv sbis - delta) then (s.scur, stry)
+    else (sbis, sbis)
+  else (sbis, sbis)
+
+/-- the new `xcur` -/
+def bqNext (xcur scur delta sbis : α) : α :=
+  if delta < absv scur then xcur + scur
+  else xcur + (if 0 < sbis then delta else -delta)
+
+def brentqLoop (f : α → α) (xtol rtol : α) : Nat → Nat → BQ α → Nat → Res α
+  | 0, itr, _, calls => ⟨0, calls, itr - 1, false⟩
+  | fuel + 1, itr, s, calls =>
+    let s1 := bqSwap (bqBlk s)
+    let delta := (xtol + rtol * absv s1.xcur) / two
+    let sbis := (s1.xblk - s1.xcur) / two
+    if s1.fcur == 0 || absv sbis < delta then ⟨s1.xcur, calls, itr + 1, true⟩
+    else
+      let ss := bqTry s1 delta sbis
+      let xnew := bqNext s1.xcur ss.2 delta sbis
+      brentqLoop f xtol rtol fuel (itr + 1)
+        { s1 with xpre := s1.xcur, fpre := s1.fcur, xcur := xnew, fcur := f xnew,
+                  spre := ss.1, scur := ss.2 } (calls + 1)
+
+def brentq (f : α → α) (a b xtol rtol : α) (maxiter : Int) (disp : Bool) : Out α :=
+  if xtol ≤ 0 then .valueError
+  else if maxiter < 1 then .valueError
+  else
+    let fa := f a
+    let fb := f b
+    if 0 < fa * fb then .valueError
+    else
+      let rs := bisectInterval a b fa fb
+      if rs.2 then finish disp ⟨rs.1, 2, 0, true⟩
+      else finish disp (brentqLoop f xtol rtol maxiter.toNat 0 ⟨a, b, 0, fa, fb, 0, 0, 0⟩ 2)
+
+/-! ### brent_max (scalar_maximization.py 49-149) -/
+
+structure BM (α : Type) where
+  a : α
+  b : α
+  fulc : α
+  nfc : α
+  xf : α
+  rat : α
+  e : α
+  fx : α
+  ffulc : α
+  fnfc : α
+  xm : α
+  tol1 : α
+  tol2 : α
+  num : Nat
+deriving Repr
+
+/-- the parabolic-fit block (lines 79-101): returns `(golden, rat, e)` -/
+def bmParabola (s : BM α) : Bool × α × α :=
+  let r := (s.xf - s.nfc) * (s.fx - s.ffulc)
+  let q := (s.xf - s.fulc) * (s.fx - s.fnfc)
+  let p := (s.xf - s.fulc) * q - (s.xf - s.nfc) * r
+  let q := two * (q - r)
+  let p := if 0 < q then -p else p
+  let q := absv q
+  let r := s.e
+  let e := s.rat
+  if absv p < absv (half * q * r) ∧ q * (s.a - s.xf) < p ∧ p < q * (s.b - s.xf) then
+    let rat := (p + 0) / q
+    let x := s.xf + rat
+    if x - s.a < s.tol2 ∨ s.b - x < s.tol2 then
+      let d := s.xm - s.xf
+      let si := sgn d + (if d == 0 then 1 else 0)
+      (false, s.tol1 * si, e)
+    else (false, rat, e)
+  else (true, s.rat, e)
+
+/-- choice of `(rat, e)` for this iteration (lines 77-108) -/
+def bmChoose (gm : α) (s : BM α) : α × α :=
+  let g : Bool × α × α := if s.tol1 < absv s.e then bmParabola s else (true, s.rat, s.e)
+  if g.1 then
+    let e := if s.xm ≤ s.xf then s.a - s.xf else s.b - s.xf
+    (gm * e, e)
+  else (g.2.1, g.2.2)
+
+/-- the new evaluation point (lines 110-115) -/
+def bmPoint (s : BM α) (rat : α) : α :=
+  let si := if rat == 0 then sgn rat + 1 else sgn rat
+  s.xf + si * npmax (absv rat) s.tol1
+
+/-- bracket / bookkeeping update (lines 119-140) for the new point `x` with `fu = -f x` -/
+def bmUpdate (sqrtEps xtol : α) (s : BM α) (rat e x fu : α) : BM α :=
+  let s1 : BM α :=
+    if fu ≤ s.fx then
+      let s0 := if s.xf ≤ x then { s with a := s.xf } else { s with b := s.xf }
+      { s0 with fulc := s.nfc, ffulc := s.fnfc, nfc := s.xf, fnfc := s.fx, xf := x, fx := fu }
+    else
+      let s0 := if x < s.xf then { s with a := x } else { s with b := x }
+      if fu ≤ s.fnfc || s.nfc == s.xf then
+        { s0 with fulc := s.nfc, ffulc := s.fnfc, nfc := x, fnfc := fu }
+      else if fu ≤ s.ffulc || s.fulc == s.xf || s.fulc == s.nfc then
+        { s0 with fulc := x, ffulc := fu }
+      else s0
+  let tol1 := sqrtEps * absv s1.xf + xtol / three
+  { s1 with rat := rat, e := e, xm := half * (s1.a + s1.b), tol1 := tol1, tol2 := two * tol1,
+            num := s.num + 1 }
+
+/-- the `while` loop; returns the final state and `status_flag` -/
+def bmLoop (f : α → α) (sqrtEps gm xtol : α) (maxfun : Int) : Nat → BM α → BM α × Nat
+  | 0, s => (s, 1)
+  | fuel + 1, s =>
+    if s.tol2 - half * (s.b - s.a) < absv (s.xf - s.xm) then
+      let re := bmChoose gm s
+      let x := bmPoint s re.1
+      let fu := -f x
+      let s' := bmUpdate sqrtEps xtol s re.1 re.2 x fu
+      if maxfun ≤ (s'.num : Int) then (s', 1) else bmLoop f sqrtEps gm xtol maxfun fuel s'
+    else (s, 0)
+
+def bmInit (f : α → α) (sqrtEps gm xtol a b : α) : BM α :=
+  let fulc := a + gm * (b - a)
+  let fx := -f fulc
+  let tol1 := sqrtEps * absv fulc + xtol / three
+  ⟨a, b, fulc, fulc, fulc, 0, 0, fx, fx, fx, half * (a + b), tol1, two * tol1, 1⟩
+
+/-- `brent_max` on finite `a`, `b`: `none` models `ValueError("a must be less than b")`;
+    otherwise `(xf, fval, status_flag, num)`. The loop runs at most `max (maxiter-1) 1` times
+    (`num` starts at 1, grows by one per pass and the loop breaks at `num >= maxiter`). -/
+def brentMax (f : α → α) (sqrtEps gm xtol a b : α) (maxiter : Int) : Option (α × α × Nat × Nat) :=
+  if a < b then
+    let r := bmLoop f sqrtEps gm xtol maxiter (max (maxiter - 1).toNat 1) (bmInit f sqrtEps gm xtol a b)
+    some (r.1.xf, -r.1.fx, r.2, r.1.num)
+  else none
+
+end generic
+
+/-! ### objective functions on the wire: postfix programs -/
+
+inductive Tok (α : Type) where
+  | var | const (c : α) | add | sub | mul | div | neg
+
+section rpn
+variable {α : Type} [Zero α] [Add α] [Sub α] [Mul α] [Div α] [Neg α]
+
+def rpnStep (x : α) (st : List α) (t : Tok α) : List α :=
+  match t, st with
+  | .var, st => x :: st
+  | .const c, st => c :: st
+  | .add, b :: a :: st => (a + b) :: st
+  | .sub, b :: a :: st => (a - b) :: st
+  | .mul, b :: a :: st => (a * b) :: st
+  | .div, b :: a :: st => (a / b) :: st
+  | .neg, a :: st => (-a) :: st
+  | _, st => st
+
+def evalRPN (prog : List (Tok α)) (x : α) : α := (prog.foldl (rpnStep x) []).headD 0
+
+def parseTok (cst : String → Option α) (s : String) : Option (Tok α) :=
+  match s with
+  | "v" => some .var
+  | "add" => some .add
+  | "sub" => some .sub
+  | "mul" => some .mul
+  | "div" => some .div
+  | "neg" => some .neg
+  | _ => (cst s).map .const
+
+end rpn
+
+/-! ### line protocol -/
+
+open QE
+
+/-- scalar kit: parsers / printers for one instance -/
+structure Sc (α : Type) where
+  num : String → Option α
+  shw : α → String
+
+def scFloat : Sc Float := ⟨parseFloat?, showFloatBits⟩
+def scRat : Sc Rat := ⟨parseRat?, showRat⟩
+
+def showOut {α : Type} (sc : Sc α) : Out α → String
+  | .ok r => sc.shw r.root ++ " " ++ toString r.calls ++ " " ++ toString r.iters ++ " " ++ showBool r.conv
+  | .valueError => "ERR:ValueError"
+  | .runtimeError => "ERR:RuntimeError"
+
+section handler
+variable {α : Type} [Zero α] [One α] [Add α] [Sub α] [Mul α] [Div α] [Neg α]
+  [LT α] [LE α] [DecidableLT α] [DecidableLE α] [BEq α]
+
+def kvProg (sc : Sc α) (toks : List String) (key : String) : Option (List (Tok α)) :=
+  (kv toks key).bind (parseList? (parseTok sc.num))
+
+def kvNum (sc : Sc α) (toks : List String) (key : String) : Option α := (kv toks key).bind sc.num
+
+def kvBool (toks : List String) (key : String) : Option Bool :=
+  match kv toks key with
+  | some "1" => some true
+  | some "0" => some false
+  | _ => none
+
+def handleSc (sc : Sc α) (toks : List String) : String :=
+  match toks with
+  | "newton" :: r =>
+    match kvProg sc r "f", kvProg sc r "fp", kvNum sc r "x0", kvNum sc r "tol", kvInt r "maxiter", kvBool r "disp" with
+    | some f, some fp, some x0, some tol, some mi, some d =>
+      showOut sc (newton (evalRPN f) (evalRPN fp) x0 tol mi d)
+    | _, _, _, _, _, _ => "bad-op"
+  | "halley" :: r =>
+    match kvProg sc r "f", kvProg sc r "fp", kvProg sc r "fpp", kvNum sc r "x0", kvNum sc r "tol",
+          kvInt r "maxiter", kvBool r "disp" with
+    | some f, some fp, some fpp, some x0, some tol, some mi, some d =>
+      showOut sc (halley (evalRPN f) (evalRPN fp) (evalRPN fpp) x0 tol mi d)
+    | _, _, _, _, _, _, _ => "bad-op"
+  | "secant" :: r =>
+    match kvProg sc r "f", kvNum sc r "k1", kvNum sc r "k2", kvNum sc r "x0", kvNum sc r "tol",
+          kvInt r "maxiter", kvBool r "disp" with
+    | some f, some k1, some k2, some x0, some tol, some mi, some d =>
+      showOut sc (secant (evalRPN f) k1 k2 x0 tol mi d)
+    | _, _, _, _, _, _, _ => "bad-op"
+  | "bisect" :: r =>
+    match kvProg sc r "f", kvNum sc r "a", kvNum sc r "b", kvNum sc r "xtol", kvNum sc r "rtol",
+          kvInt r "maxiter", kvBool r "disp" with
+    | some f, some a, some b, some xtol, some rtol, some mi, some d =>
+      showOut sc (bisect (evalRPN f) a b xtol rtol mi d)
+    | _, _, _, _, _, _, _ => "bad-op"
+  | "brentq" :: r =>
+    match kvProg sc r "f", kvNum sc r "a", kvNum sc r "b", kvNum sc r "xtol", kvNum sc r "rtol",
+          kvInt r "maxiter", kvBool r "disp" with
+    | some f, some a, some b, some xtol, some rtol, some mi, some d =>
+      showOut sc (brentq (evalRPN f) a b xtol rtol mi d)
+    | _, _, _, _, _, _, _ => "bad-op"
+  | "brentmax" :: r =>
+    match kvProg sc r "f", kvNum sc r "a", kvNum sc r "b", kvNum sc r "xtol", kvNum sc r "sqrteps",
+          kvNum sc r "gm", kvInt r "maxiter" with
+    | some f, some a, some b, some xtol, some se, some gm, some mi =>
+      match brentMax (evalRPN f) se gm xtol a b mi with
+      | some (xf, fval, flag, num) =>
+        sc.shw xf ++ " " ++ sc.shw fval ++ " " ++ toString flag ++ " " ++ toString num
+      | none => "ERR:ValueError"
+    | _, _, _, _, _, _, _ => "bad-op"
+  | _ => "bad-op"
+
+end handler
+
+def handle (toks : List String) : String :=
+  match kv toks "sc" with
+  | some "float" => handleSc scFloat toks
+  | some "rat" => handleSc scRat toks
+  | _ => "bad-op"
 
 end QE.C17
